@@ -1,16 +1,42 @@
 from vlib import Job
 
 META = dict(
-    bounds='placeholder',
-    outside='placeholder',
-    assumptions=[],
+    bounds='I/O loops (h_doio.cpp): one call (or two consecutive calls) of every photon::net wrapper built on doio_once/doio_loop/BufStep/BufStepV '
+           '(send, write, sendv, writev, sendmsg, send_n, write_n, sendv_n, writev_n, read, recv, readv, recvmsg, read_n, readv_n) and of '
+           'KernelSocketStream::{read, write, recv, send, readv, writev} over a stub stream socket; flat buffers of 0..6 bytes (thorough 0..9) in '
+           'exact-size static arrays; iovec shapes of <= 3 elements of 0..2 bytes (thorough 0..3), zero-length elements anywhere, iovec array of exactly '
+           'iovcnt entries (quick: <= 2 elements for the *_n vector loops; thorough: 3 elements with one job per element count); symbolic data bytes; '
+           'per system call the kernel moves any prefix 1..min(requested, cap) with symbolic cap, or fails with EINTR (<= 1 time per run, thorough 2), '
+           'EAGAIN (<= 1, thorough 2) or a symbolic hard errno; EOF at a symbolic offset 0..total+2; every readiness wait returns ready / ETIMEDOUT / a '
+           'symbolic interrupter errno; symbolic clock and deadline (KernelSocketStream: symbolic 64-bit stream timeout). '
+           'Engine (h_epoll.cpp): one step (wait_and_fire_events, wait_for_fd, wait_for_fd(fd,0)) from every registered-interest state of 2 '
+           'descriptors x {read, write} that satisfies the engine/kernel invariant, one kernel batch of <= 3 events in either order.',
+    outside='the kernel and TCP/UDS semantics (replaced by the stub socket / stub epoll); real socket-buffer sizes ("several socket buffers" becomes every '
+            'split of <= 9 bytes); more than two consecutive calls; EINTR/EAGAIN more often than the stated budget (the retry loops are then cut by the '
+            'unwinding assertion, i.e. reported, not assumed away); net::readv/readv_n with iovcnt <= 0 (refused with EINVAL by an explicit guard); '
+            'sendfile, connect, accept, zerocopy, TLS, io_uring and edge-triggered (epoll-ng) engines; EVENT_ERROR waiters, non-one-shot (cascading) '
+            'interests, growth of the engine descriptor table, left-over events of a previous batch (_events_remain > 0), concurrency between vCPUs; '
+            'multi-step engine histories (covered only through the inductive invariant of the single step).',
+    assumptions=[
+        'stub kernel socket rt/sockstub.c: a successful system call moves a non-empty prefix (0 only for a 0-byte request or at EOF), bytes in order; '
+        'EINTR at most KINTR times and EAGAIN at most KAGAIN times per harness run; hard errors have an errno other than 0/EINTR/EAGAIN',
+        'stub MasterEventEngine::wait_for_fd (harness): returns 0, or -1/ETIMEDOUT, or -1/any non-zero errno; the clock advances by 0..255 us per wait',
+        'photon::CURRENT / vcpu / master engine are harness objects; photon::now is a symbolic 64-bit value',
+        'stub epoll (h_epoll.cpp): EPOLL_CTL_ADD/MOD/DEL with EEXIST/ENOENT; MOD re-arms; a reported EPOLLONESHOT registration is disarmed for all events; '
+        'epoll_wait reports a non-empty subset of (requested | EPOLLERR | EPOLLHUP) per armed descriptor, optionally the wake-up eventfd, at most one EINTR',
+        'thread_usleep stub: the idle loop runs wait_and_fire_events at most once while the caller sleeps; other interrupters never use errno EOK (ENXIO)',
+        'engine descriptor table is a static array of 4 entries installed into the std::vector representation (libstdc++ layout: begin/end/end_of_storage)',
+        'code under test compiled with -fno-inline (always_inline honoured) so that loop bounds can be given per function; logging macros have empty bodies; NDEBUG',
+    ],
 )
 SRC = 'C10/h_doio.cpp'
 SH = ['libc.c', 'sockstub.c']
 # (name, OP, vector?, loop?)
 OPS = [('send', 0, 0, 0), ('write', 1, 0, 0), ('sendv', 2, 1, 0), ('writev', 3, 1, 0), ('sendmsg', 4, 1, 0),
        ('send_n', 10, 0, 1), ('write_n', 11, 0, 1), ('sendv_n', 12, 1, 1), ('writev_n', 13, 1, 1),
-       ('read', 20, 0, 0), ('recv', 21, 0, 0), ('readv', 22, 1, 0), ('recvmsg', 23, 1, 0), ('read_n', 30, 0, 1), ('readv_n', 31, 1, 1)]
+       ('read', 20, 0, 0), ('recv', 21, 0, 0), ('readv', 22, 1, 0), ('recvmsg', 23, 1, 0), ('read_n', 30, 0, 1), ('readv_n', 31, 1, 1),
+       ('seq_write_n_send', 40, 0, 0), ('seq_read_n_recv', 41, 0, 0),
+       ('ks_read', 50, 0, 1), ('ks_write', 51, 0, 1), ('ks_recv', 52, 0, 0), ('ks_send', 53, 0, 0), ('ks_readv', 54, 1, 1), ('ks_writev', 55, 1, 1)]
 # the functions whose only loop is the doio_once retry loop (compiled with -fno-inline, so every loop keeps its function's name):
 # at most KINTR + KAGAIN retries, then one final attempt
 ONCE = ['_ZN6photon3net4sendEiPKvmiNS_7TimeoutE', '_ZN6photon3net7sendmsgEiPK6msghdriNS_7TimeoutE', '_ZN6photon3net5sendvEiPK5ioveciiNS_7TimeoutE',
@@ -20,25 +46,36 @@ ONCE = ['_ZN6photon3net4sendEiPKvmiNS_7TimeoutE', '_ZN6photon3net7sendmsgEiPK6ms
 def doio_job(name, op, vec, nel, ml, ki, ka, timeout, extra=(), mem_gb=4):
     tmax = nel * ml
     us = ['ext_sk_setup.0:13', 'ext_sk_setup.1:17', 'ext_sk_setup.2:5'] + ['f_%s.0:%d' % (f, ki + ka + 1) for f in ONCE]
+    if name.startswith('ks_') and vec: us.append('verif_memcpy_n.0:%d' % (16 * nel + 1))      # SmartCloneIOV copies iovcnt * sizeof(iovec) bytes
+    what = 'KernelSocketStream::%s' % name.split('.')[0][3:] if name.startswith('ks_') else 'net::%s' % name.split('.')[0]
     return Job(name, SRC, 'harness_doio', defines=['OP=%d' % op, 'NEL=%d' % nel, 'MLEN=%d' % ml, 'KINTR=%d' % ki, 'KAGAIN=%d' % ka] + list(extra),
                clang=['-fno-inline'], unwind=tmax + 1, unwindset=us, cbmc=['-D', 'SK_LENMAX=%d' % (ml if vec else tmax)], shims=SH, timeout=timeout, mem_gb=mem_gb,
-               desc='net::%s over the stub stream socket' % name.split('.')[0],
-               bounds=('<=%d iovecs x <=%d bytes' % (nel, ml) if vec else 'buffer of <=%d bytes' % tmax) + ', EINTR<=%d EAGAIN<=%d' % (ki, ka))
+               desc='%s over the stub stream socket' % what,
+               bounds=('<=%d iovecs x <=%d bytes' % (nel, ml) if vec else 'buffer of <=%d bytes' % tmax) + ', EINTR<=%d EAGAIN<=%d' % (ki, ka)
+                      + (', exactly %s iovecs' % extra[0].split('=')[1] if extra else ''))
 
 def jobs(tier):
     q = tier == 'quick'
     J = []
     for nm, op, vec, loop in OPS:
+        ks = nm.startswith('ks_')
         if q:
-            if vec and loop: J.append(doio_job(nm, op, vec, 2, 2, 1, 1, 300))
-            else: J.append(doio_job(nm, op, vec, 3, 2, 1, 1, 300))
+            if ks and vec: J.append(doio_job(nm + '.cnt2', op, vec, 2, 2, 1, 1, 400, extra=['FIXCNT=2'], mem_gb=4))    # SmartCloneIOV copies iovcnt entries: constant count
+            elif vec and loop: J.append(doio_job(nm, op, vec, 2, 2, 1, 1, 400, mem_gb=4))
+            else: J.append(doio_job(nm, op, vec, 3, 2, 1, 1, 400, mem_gb=2))
         else:
             if vec and loop:
-                J.append(doio_job(nm, op, vec, 2, 2, 2, 2, 3000))
-                for c in range(1 if op == 31 else 0, 4): J.append(doio_job('%s.cnt%d' % (nm, c), op, vec, 3, 2, 1, 1, 3000, extra=['FIXCNT=%d' % c], mem_gb=8))
-            else: J.append(doio_job(nm, op, vec, 3, 3, 2, 2, 3000, mem_gb=8))
+                if not ks: J.append(doio_job(nm, op, vec, 2, 2, 2, 2, 3000, mem_gb=4))
+                for c in range(1 if op == 31 else 0, 4): J.append(doio_job('%s.cnt%d' % (nm, c), op, vec, 3, 2, 1, 1, 3000, extra=['FIXCNT=%d' % c], mem_gb=6))
+            elif loop:
+                # flat-buffer loops: the doio_loop x doio_once product is the expensive part; longest buffers with one retry of each kind,
+                # two retries of each kind with the shorter buffers
+                J.append(doio_job(nm + '.len9', op, vec, 3, 3, 1, 1, 3000, mem_gb=3))
+                J.append(doio_job(nm + '.retry2', op, vec, 3, 2, 2, 2, 3000, mem_gb=3))
+            else: J.append(doio_job(nm, op, vec, 3, 3, 2, 2, 3000, mem_gb=3))
     for nm, op, what in (('epoll_fire', 0, 'wait_and_fire_events: one batch of kernel events'), ('epoll_waitfd', 1, 'wait_for_fd: register, sleep, event / timeout / interrupt'),
                          ('epoll_withdraw', 2, 'wait_for_fd(fd, 0): descriptor withdrawn before close')):
-        J.append(Job(nm, 'C10/h_epoll.cpp', 'harness_epoll', defines=['OP=%d' % op], unwind=4, shims=['libc.c', 'c10_epoll.c'], ir2c=['--stub', '_M_default_appendEm$'], timeout=300 if q else 3000, mem_gb=4,
+        J.append(Job(nm, 'C10/h_epoll.cpp', 'harness_epoll', defines=['OP=%d' % op], unwind=4, shims=['libc.c', 'c10_epoll.c'], ir2c=['--stub', '_M_default_appendEm$'],
+                     timeout=400 if q else 3000, mem_gb=4,
                      desc='EventEngineEPoll ' + what, bounds='2 descriptors x 2 directions, one step from every consistent registered-interest state'))
     return J
